@@ -1564,6 +1564,7 @@ class InBodyPhase(Phase):
         self.tree.reconstructActiveFormattingElements()
         self.tree.insertElement(impliedTagToken("br", "StartTag"))
         self.tree.openElements.pop()
+        self.parser.framesetOK = False
 
     def endTagOther(self, token):
         for node in self.tree.openElements[::-1]:
